@@ -24,6 +24,10 @@ CLAIMED = {
          'Decides that both user-visible views of the peer read channel::visible_ep, that refusal drops the channel and completes through a positively armed timer, that a channel is created only for a listening registered acceptor, that the accept queue is strictly FIFO and that close(ec) ends listening. Pairing under all schedules is not decided.', '4/C07'),
  'C08': ('static: field-coverage of udp close() by reset dataflow, byte-account pairing with linear normal forms, CFG dominance rules for send validation and route resolution',
          'Decides that close() discards all per-binding state including the forwarder in-flight packets point at, that the receive-buffer account is exact at enqueue/shrink/removal, that one receive consumes exactly the front datagram and reports its sender, and that send_to validates before anything reaches capture or wire and resolves the route in the same call. At-most-once, ordering and right-socket over histories are not decided.', '4/C08'),
+ 'C09': ('static: mutation-kind table on the hop container, wake-up style guard evaluation for the sender, CFG all-paths-armed rule, type-level truncation rule, must-precede rules on the time base',
+         'Decides strict FIFO use of the container, that a backlogged hop is never idle (start on empty->non-empty, continue while non-empty, every path armed), the zero-bandwidth branch, and structural necessary conditions of the departure formula (latency stamped and waited for, time base from the clock in the same invocation, no integer-truncated per-byte time multiplied by size). The formula, rounding and delay/rate bounds are not decided.', '4/C09'),
+ 'C10': ('static: byte-account pairing in linear normal form, exact-form check of the drop guard atoms, constant evaluation of ok_to_drop over the enum, exactly-once path rules per sink, writer table of packet fields in hops',
+         'Decides that the byte account is balanced with one measure, that the drop guard is exactly the stated predicate with that measure, which packet types are droppable, that every path through each sink handles the packet exactly once and keeps the callback unless dropping, and that hops write only hops/from.address/drop_fun. Run-time values of the predicate are not decided.', '4/C10'),
 }
 
 NOT_YET = {}
